@@ -30,8 +30,21 @@ var Prop = &fw.Prop{
 	NewReal:     newReal,
 	Monitor:     monitor,
 	Sigs:        sigs,
+	Agree:       agreeCorrupted,
 	FixedLayout: true, // the shrinker below removes whole blocks first (one run costs ~0.3 s)
 	Shrink:      shrinkCase,
+}
+
+// agreeCorrupted: once the applied side map of the implementation holds an entry whose content
+// belongs to another path (printed `path>content`; the listed defect KF-C20-store-loop-variable:
+// which element's content every write of one UpdateStatus carries is Go's map iteration order),
+// what follows depends on that order in ways the after-the-fact hint (`last=`) cannot always name -
+// the side-map transaction may fail half way, an unchanged index may skip an entry.  The twin is not
+// required to follow the implementation through such states; the monitor still judges them, and its
+// failures are attributed by signature.  (False alarm on the unchanged tree, met in a fresh-sandbox
+// run: a disagreement in such a state kept the monitor's failure from being attributed.)
+func agreeCorrupted(line, real, twin string) bool {
+	return strings.Contains(real, ">/")
 }
 
 // shrinkCase proposes the script with one block removed: halves, quarters, eighths, sixteenths, and
@@ -379,6 +392,32 @@ func enumerate(tier string) []fw.Case {
 				s = append(s, "v3.tx 2 valid ok -", "v3.tx 1 valid ok -")
 			}
 			out = append(out, fw.Case{Script: s, Tags: []string{"enum-inj-" + l}, Nontrivial: true})
+		}
+	}
+	// a refused rollback apply whose second write (the transaction's own FAILED status) is lost, failed
+	// or crashed away, at every step of the rollback, followed by fault-free retries: the recovery
+	// branches of applyRollback must not take the advanced cursors for a completed apply
+	applied := append([]string{}, base...)
+	for k := 0; k < 6; k++ {
+		applied = append(applied, "v3.tx 1 valid ok -", "v3.tx 2 valid ok -")
+	}
+	applied = append(applied, "v3.rollback 2")
+	for _, a := range []string{"invalid", "internal"} {
+		for _, l := range []string{"1f", "1c", "1s"} {
+			for pos := 0; pos < 6; pos++ {
+				s := append([]string{}, applied...)
+				for k := 0; k < 6; k++ {
+					if k == pos {
+						s = append(s, fmt.Sprintf("v3.tx 2 valid %s %s", a, l))
+					} else {
+						s = append(s, "v3.tx 2 valid ok -")
+					}
+				}
+				for k := 0; k < 4; k++ {
+					s = append(s, "v3.tx 2 valid ok -", "v3.tx 1 valid ok -")
+				}
+				out = append(out, fw.Case{Script: s, Tags: []string{"enum-rbk-refused-" + l}, Nontrivial: true})
+			}
 		}
 	}
 	return out
